@@ -57,6 +57,19 @@ def run(tier, seed):
         if bad:
             v.violation(bad, desc)
             continue
+        # array-valued argument: same values, and the caller's array is left alone (a reused s grid must stay an s grid)
+        sg_ = np.array(grid[::100], dtype=float)
+        keep = sg_.copy()
+        try:
+            arr1 = np.asarray(structure.FormFactor(el, sg_), dtype=float)
+            arr2 = np.asarray(structure.FormFactor(el, sg_), dtype=float)
+            wantarr = np.array([sum(c[i] * math.exp(-c[i + 4] * s * s) for i in range(4)) + c[8] for s in keep])
+            if not np.array_equal(sg_, keep):
+                v.violation("FormFactor(%s, array) modifies the array of sin(theta)/lambda values it is given" % el, desc)
+            elif arr1.shape != wantarr.shape or np.abs(arr1 - wantarr).max() > 1e-9 * max(1.0, np.abs(wantarr).max()) or not np.array_equal(arr1, arr2):
+                v.violation("FormFactor(%s, array of s) differs from the values for the individual s" % el, desc)
+        except Exception as ex:
+            v.violation("FormFactor(%s, array of s) raised %r" % (el, ex), desc)
         if min(vals) <= 0:
             v.violation("form factor of %s is not positive on [0, 2]: min %.4g" % (el, min(vals)), desc)
         if any(vals[i + 1] >= vals[i] for i in range(len(vals) - 1)):
